@@ -429,6 +429,7 @@ func layoutsB(quick bool) []layoutB {
 		{"anonymize-switched-off-again", big, seq(recs(2), an, recs(2, 4), fl, rt, recs(7), fl, recs(9), an, recs(2)), false},
 		{"mem-size-2-natural-flushes", cfg{2, true}, seq(recs(0, 2, 11, 1), rt, recs(7, 2, 4)), false},
 		{"memory-only-log", cfg{3, false}, recs(2, 11, 1, 7), false},
+		{"one-unknown-clientid-from-two-clients", big, seq(recs(15, 16, 2), fl, recs(16, 15)), false},
 		{"disabled-interval+restart", big, seq(recs(2), fl, enb, recs(1, 11), enb, recs(7), rs, rt, recs(11), rs, recs(10)), false},
 	}
 	if !quick {
@@ -459,6 +460,7 @@ func termsB(quick bool) []termB {
 		{"10.0.0.2", "ip"},
 		{"10.0.0", "ip-part"},
 		{"zz-no-match", "no-match"},
+		{"caroltv", "client-name-other"},
 		{"ПРИМЕР.РФ", "idn-unicode-upper-case"},
 	}
 	if !quick {
@@ -807,7 +809,9 @@ func runBulk(tmp string, b bulk) (res runResult, err error) {
 // window must still be reachable by both ways of paging.  The window (50 000
 // records in search.go) cannot be crossed by the small layouts of phases A/B.
 func phaseLong(c *lib.Ctx) {
-	bs := []bulk{{Old: 1, NOld: 3, Bulk: 0, NBulk: 50010, NNew: 1}}
+	// The second layout: 40 records whose stored lines are about 8 KiB (the
+	// timestamp search of the cursor probes deep into such lines).
+	bs := []bulk{{Old: 1, NOld: 3, Bulk: 0, NBulk: 50010, NNew: 1}, {Old: 1, NOld: 3, Bulk: 14, NBulk: 40, NNew: 1}}
 	if !c.Quick() {
 		bs = append(bs, bulk{Old: 2, NOld: 4, Bulk: 11, NBulk: 100020, NNew: 2}, bulk{Old: 0, NOld: 2, Bulk: 2, NBulk: 50000, NNew: 0})
 	}
@@ -856,6 +860,11 @@ func phaseLong(c *lib.Ctx) {
 				}
 				rep(checkOffsetPaging(r.e, r.m, 2, search, "", &q))
 				rep(cursorConcat(r.e, r.m, 2, search, &q))
+			}
+			if b.NBulk < 1000 {
+				// a short log of long lines: follow the cursor over everything
+				rep(cursorConcat(r.e, r.m, 3, "", &q))
+				rep(cursorConcat(r.e, r.m, 1, kinds[b.Bulk].XName, &q))
 			}
 			// the unfiltered newest page and a deep offset into the bulk
 			for _, rq := range []request{{Limit: "3"}, {Limit: "3", Offset: "0"}, {Limit: "3", Search: kinds[b.Bulk].XName}, {Limit: "4", Offset: strconv.Itoa(b.NBulk + b.NNew - 2)}, {Limit: "2", Offset: strconv.Itoa(b.NBulk + b.NNew + b.NOld - 1)}} {
@@ -984,7 +993,7 @@ func main() {
 			if tier == "thorough" {
 				return 18 * time.Minute
 			}
-			return 80 * time.Second
+			return 160 * time.Second
 		},
 		Run: runAll, Replay: replay,
 		Evidence: func(m *lib.Merged) map[string]any {
